@@ -25,13 +25,15 @@ import (
 const twigPath = "github.com/semihalev/twig"
 
 type World struct {
-	Repo  string
-	Fset  *token.FileSet
-	Pkgs  []*packages.Package
-	Pkg   *packages.Package
-	Info  *types.Info
-	TPkg  *types.Package
-	Files []*ast.File
+	loadParts     map[*ssa.Function]bool
+	entryFuncMemo map[*ssa.Function][3]interface{}
+	Repo          string
+	Fset          *token.FileSet
+	Pkgs          []*packages.Package
+	Pkg           *packages.Package
+	Info          *types.Info
+	TPkg          *types.Package
+	Files         []*ast.File
 
 	decls   map[*types.Func]*ast.FuncDecl
 	parents map[ast.Node]ast.Node
